@@ -753,8 +753,13 @@ pub fn gen_rows_unit(r: &mut Rng, o: &ProgOpts, last: bool, implicit_end: bool) 
         .map(|_| if o.binary { gen_col_bin(r) } else { gen_col_text(r) })
         .collect();
     let nrows = r.usize_below(o.max_rows + 1);
+    // a zero-column resultset may still have values "written" to it (ignored by the library)
+    let ghost_cells = if ncols == 0 && r.coin() { 1 + r.usize_below(2) } else { 0 };
     let rows: Vec<Vec<Cell>> = (0..nrows)
         .map(|_| {
+            if ghost_cells > 0 {
+                return (0..ghost_cells).map(|_| gen_cell_text(r, false)).collect();
+            }
             cols.iter()
                 .map(|c| {
                     if o.binary {
